@@ -1,4 +1,5 @@
 import JL.Props.C02
+import JL.Lemmas.C03
 /-!
 # C03 — every operator enforces its arity; `{op: x}` means exactly `{op: [x]}`
 -/
@@ -124,9 +125,100 @@ theorem check_sugar (k : Str) (x : Json) (hx : ∀ xs, x ≠ .arr xs) :
          · simp [hu', checkList])
       | simp [hu', checkList]
 
+/-- **Unary sugar, evaluation phase.** For every recognised key (whatever its table) and every non-array `x`, the
+evaluation of `{k: x}` is that of `{k: [x]}`: same outcome, same log lines. -/
+theorem run_sugar (k : Str) (x d : Json) (hx : ∀ xs, x ≠ .arr xs) (hk : (lookupOp k).isSome = true) :
+    run (.obj [(k, x)]) d = run (.obj [(k, .arr [x])]) d :=
+  JL.Lemmas.C03.run_sugar k x d hx hk
+
+/-- **Unary sugar.** `{k: x}` means exactly `{k: [x]}`: for every recognised operator key `k`, every operand `x` that
+is not an array and all data, the two spellings have the same outcome (value, or error when one operand is not a
+documented count for `k` or the operand does not parse) and the same log lines.
+
+(The key must be recognised: for an unrecognised key both spellings are *literals* and evaluate to themselves,
+`unrecognised_sugar` — two different values.) -/
+theorem unary_sugar (k : Str) (x d : Json) (hx : ∀ xs, x ≠ .arr xs) (hk : (lookupOp k).isSome = true) :
+    apply (.obj [(k, x)]) d = apply (.obj [(k, .arr [x])]) d := by
+  unfold apply
+  rw [check_sugar k x hx, run_sugar k x d hx hk]
+
+/-- the same, the key being given as one of the 35 documented names -/
+theorem unary_sugar_documented (k : Str) (x d : Json) (hx : ∀ xs, x ≠ .arr xs) (hk : k ∈ documentedNames) :
+    apply (.obj [(k, x)]) d = apply (.obj [(k, .arr [x])]) d :=
+  unary_sugar k x d hx (by rw [lookup_iff]; simpa using hk)
+
+/-- for an unrecognised key there is no sugar: both spellings are literals and come back as written -/
+theorem unrecognised_sugar (k : Str) (x d : Json) (hk : lookupOp k = none) :
+    apply (.obj [(k, x)]) d = ⟨[], .ok (.obj [(k, x)])⟩ ∧ apply (.obj [(k, .arr [x])]) d = ⟨[], .ok (.obj [(k, .arr [x])])⟩ := by
+  have hc : documentedNames.contains k = false := by rw [← lookup_iff, hk]; rfl
+  exact ⟨literal_id _ _ (by simpa [isOperation] using hc), literal_id _ _ (by simpa [isOperation] using hc)⟩
+
+/-- **Acceptance.** The parse phase accepts a bracketed operand list exactly when its length is valid for the
+descriptor and (eager and data operators) every operand parses; lazy operators keep their operands raw. -/
+theorem accept_eq (k : Str) (kind : Kind) (ar : Arity) (xs : List Json) (h : lookupOp k = some (kind, ar)) :
+    check (.obj [(k, .arr xs)]) = (ar.isValidLen xs.length && (kind == .lazy || checkList xs)) := by
+  unfold check; simp [h]
+
+/-- accepted ⇒ the operand count is valid for the descriptor -/
+theorem accept_iff (k : Str) (kind : Kind) (ar : Arity) (xs : List Json) (h : lookupOp k = some (kind, ar))
+    (hc : check (.obj [(k, .arr xs)]) = true) : ar.isValidLen xs.length = true := by
+  rw [accept_eq k kind ar xs h] at hc
+  simp only [Bool.and_eq_true] at hc
+  exact hc.1
+
+/-- accepted ⇒ the operand count is one of the documented counts of `k` (for every `n : ℕ`) -/
+theorem accept_documented (k : Str) (kind : Kind) (ar : Arity) (xs : List Json) (h : lookupOp k = some (kind, ar))
+    (hc : check (.obj [(k, .arr xs)]) = true) : ∃ r, documented k = some r ∧ inRange r xs.length = true := by
+  obtain ⟨r, hr, he⟩ := arity_doc k kind ar h xs.length
+  exact ⟨r, hr, by rw [← he]; exact accept_iff k kind ar xs h hc⟩
+
+/-- conversely, when every operand parses (always the case for lazy operators, whose operands are kept raw, and for
+literal operands), acceptance is *exactly* "the count is documented": surplus operands are never ignored, missing
+ones never defaulted -/
+theorem accept_iff_documented (k : Str) (kind : Kind) (ar : Arity) (xs : List Json) (h : lookupOp k = some (kind, ar))
+    (hops : kind = .lazy ∨ checkList xs = true) :
+    ∃ r, documented k = some r ∧ check (.obj [(k, .arr xs)]) = inRange r xs.length := by
+  obtain ⟨r, hr, he⟩ := arity_doc k kind ar h xs.length
+  refine ⟨r, hr, ?_⟩
+  rw [accept_eq k kind ar xs h, he]
+  rcases hops with h | h <;> simp [h]
+
+/-- the bare spelling is accepted exactly when one operand is a documented count (and the operand parses) -/
+theorem accept_bare_eq (k : Str) (kind : Kind) (ar : Arity) (x : Json) (hx : ∀ xs, x ≠ .arr xs)
+    (h : lookupOp k = some (kind, ar)) :
+    check (.obj [(k, x)]) = (ar.isValidLen 1 && (kind == .lazy || check x)) := by
+  rw [check_sugar k x hx, accept_eq k kind ar [x] h]
+  simp [checkList]
+
+/-- **Rejection, in terms of the documentation**: an operand count outside the documented set of `k` is an error
+(no panic, no log line, no operand evaluated; surplus operands are not ignored, missing ones not defaulted) — for
+every count `n : ℕ`. -/
+theorem reject_undocumented (k : Str) (kind : Kind) (ar : Arity) (xs : List Json) (d : Json)
+    (h : lookupOp k = some (kind, ar)) (r : Range) (hr : documented k = some r) (hn : inRange r xs.length = false) :
+    apply (.obj [(k, .arr xs)]) d = ⟨[], .err⟩ := by
+  obtain ⟨r', hr', he⟩ := arity_doc k kind ar h xs.length
+  rw [hr] at hr'; cases hr'
+  exact reject_count k kind ar xs d h (by rw [he, hn])
+
 /-! non-vacuity: the hypotheses are met by real entries -/
 example : lookupOp "-".toList = some (.eager, .variadic 1 3) := by decide
 example : (Arity.variadic 1 3).isValidLen 3 = false := by decide
 example : documented "var".toList = some (0, some 3) := by decide
 
+/-- `reject_count`, `accept_iff`: real operand lists on both sides of the limit -/
+example : apply (.obj [("<".toList, .arr [.num (.pos 1), .num (.pos 2), .num (.pos 3), .num (.pos 4)])]) .null = ⟨[], .err⟩ := by decide +kernel
+example : check (.obj [("<".toList, .arr [.num (.pos 1), .num (.pos 2), .num (.pos 3)])]) = true := by decide +kernel
+/-- `unary_sugar`: hypotheses are met (`"a"` is not an array, `var`/`!`/`or`/`map` are recognised), both spellings agree -/
+example : ∀ xs, Json.str "a".toList ≠ .arr xs := by intro xs h; cases h
+example : (lookupOp "var".toList).isSome = true ∧ (lookupOp "or".toList).isSome = true ∧ (lookupOp "map".toList).isSome = true := by decide
+example : apply (.obj [("var".toList, .str "a".toList)]) (.obj [("a".toList, .num (.pos 7))]) = ⟨[], .ok (.num (.pos 7))⟩
+    ∧ apply (.obj [("var".toList, .arr [.str "a".toList])]) (.obj [("a".toList, .num (.pos 7))]) = ⟨[], .ok (.num (.pos 7))⟩ := by decide +kernel
+example : apply (.obj [("log".toList, .str "a".toList)]) .null = ⟨[.str "a".toList], .ok (.str "a".toList)⟩
+    ∧ apply (.obj [("log".toList, .arr [.str "a".toList])]) .null = ⟨[.str "a".toList], .ok (.str "a".toList)⟩ := by decide +kernel
+example : apply (.obj [("map".toList, .str "a".toList)]) .null = ⟨[], .err⟩
+    ∧ apply (.obj [("map".toList, .arr [.str "a".toList])]) .null = ⟨[], .err⟩ := by decide +kernel
+/-- `unrecognised_sugar` is not vacuous and the two literals differ -/
+example : lookupOp "Var".toList = none := by decide
+
+example : documented "<".toList = some (2, some 4) ∧ inRange (2, some 4) 4 = false ∧ inRange (2, some 4) 64 = false := by decide
 end JL.Props.C03
